@@ -94,13 +94,17 @@ func (s *c04Store) take() map[adapter.SocketID][]string {
 	return r
 }
 
-func (so *c04Socket) ID() adapter.SocketID                           { return so.id }
-func (so *c04Socket) Join(room ...adapter.Room)                      { so.store.adapter.AddAll(so.id, room) }
-func (so *c04Socket) Leave(room adapter.Room)                        { so.store.adapter.Delete(so.id, room) }
-func (so *c04Socket) Emit(eventName string, v ...any)                {}
-func (so *c04Socket) To(room ...adapter.Room) *adapter.BroadcastOperator     { return so.Broadcast().To(room...) }
-func (so *c04Socket) In(room ...adapter.Room) *adapter.BroadcastOperator     { return so.To(room...) }
-func (so *c04Socket) Except(room ...adapter.Room) *adapter.BroadcastOperator { return so.Broadcast().Except(room...) }
+func (so *c04Socket) ID() adapter.SocketID            { return so.id }
+func (so *c04Socket) Join(room ...adapter.Room)       { so.store.adapter.AddAll(so.id, room) }
+func (so *c04Socket) Leave(room adapter.Room)         { so.store.adapter.Delete(so.id, room) }
+func (so *c04Socket) Emit(eventName string, v ...any) {}
+func (so *c04Socket) To(room ...adapter.Room) *adapter.BroadcastOperator {
+	return so.Broadcast().To(room...)
+}
+func (so *c04Socket) In(room ...adapter.Room) *adapter.BroadcastOperator { return so.To(room...) }
+func (so *c04Socket) Except(room ...adapter.Room) *adapter.BroadcastOperator {
+	return so.Broadcast().Except(room...)
+}
 func (so *c04Socket) Broadcast() *adapter.BroadcastOperator {
 	return adapter.NewBroadcastOperator("/", so.store.adapter, func(string) bool { return false }).Except(adapter.Room(so.id))
 }
@@ -197,7 +201,9 @@ func evalC04Enum(c c04EnumCase) *Failure {
 	v := []any{"ev", "token"}
 	vv := make([]any, 0, 4)
 	vv = append(vv, v...)
-	pm, _ = catchPanic(func() { st.adapter.Broadcast(&parser.PacketHeader{Type: parser.PacketTypeEvent, Namespace: "/"}, vv, opts) })
+	pm, _ = catchPanic(func() {
+		st.adapter.Broadcast(&parser.PacketHeader{Type: parser.PacketTypeEvent, Namespace: "/"}, vv, opts)
+	})
 	if pm != "" {
 		return fail("no-panic", "Broadcast panicked: "+pm)
 	}
@@ -311,7 +317,7 @@ func hasSock(xs []string) bool {
 const c04CheckHist = "c04-adapter-history"
 
 type c04Op struct {
-	Op     string   `json:"op"` // connect join leave leaveall disconnect socketsjoin socketsleave disconnectsockets broadcast sockbroadcast operator
+	Op     string   `json:"op"` // connect prejoin join leave leaveall1 disconnect socketsjoin socketsleave disconnectsockets broadcast sockbroadcast operator
 	Sock   string   `json:"sock,omitempty"`
 	Rooms  []string `json:"rooms,omitempty"`
 	T      []string `json:"to,omitempty"`
@@ -332,6 +338,7 @@ func evalC04Hist(c c04HistCase) (f *Failure, nontrivial bool) {
 	st := newC04(c.Adapter)
 	model := map[string]map[string]bool{} // connected sockets -> rooms
 	socks := map[string]*c04Socket{}
+	pending := map[string]map[string]bool{} // sockets that joined rooms before the socket store knows them (membership exists, nothing can be delivered yet)
 	token := 0
 	allRooms := []string{"r0", "r1", "r2", "r3", "r4"}
 	allSocks := []string{"s0", "s1", "s2", "s3", "s4", "s5"}
@@ -345,7 +352,7 @@ func evalC04Hist(c c04HistCase) (f *Failure, nontrivial bool) {
 				want := false
 				if rooms, ok := model[s]; ok {
 					want = selected(rooms, R, nil)
-				}
+				} // (a socket the socket store does not know yet is in rooms but is nobody's recipient: Sockets() leaves it out)
 				if got.Contains(adapter.SocketID(s)) != want {
 					return fail("sockets-query", fmt.Sprintf("after step %d: Sockets(%v) contains %s = %v, model says %v (rooms %v)", step, R, s, !want, want, keys(model[s])))
 				}
@@ -354,6 +361,9 @@ func evalC04Hist(c c04HistCase) (f *Failure, nontrivial bool) {
 		for _, s := range allSocks {
 			got, ok := st.adapter.SocketRooms(adapter.SocketID(s))
 			rooms, connected := model[s]
+			if !connected {
+				rooms, connected = pending[s]
+			}
 			if !connected {
 				if ok && got.Cardinality() > 0 {
 					return fail("disconnected-in-no-room", fmt.Sprintf("after step %d: disconnected socket %s still has rooms %v", step, s, got.ToSlice()))
@@ -446,6 +456,37 @@ func evalC04Hist(c c04HistCase) (f *Failure, nontrivial bool) {
 			}
 			pm, _ = catchPanic(func() { socks[op.Sock] = st.connect(adapter.SocketID(op.Sock)) })
 			model[op.Sock] = map[string]bool{op.Sock: true}
+			for r := range pending[op.Sock] {
+				model[op.Sock][r] = true // rooms joined before the admission are kept
+			}
+			delete(pending, op.Sock)
+		case "prejoin":
+			if _, ok := model[op.Sock]; ok {
+				continue
+			}
+			pm, _ = catchPanic(func() {
+				rs := make([]adapter.Room, len(op.Rooms))
+				for k, r := range op.Rooms {
+					rs[k] = adapter.Room(r)
+				}
+				st.adapter.AddAll(adapter.SocketID(op.Sock), rs)
+			})
+			if pending[op.Sock] == nil {
+				pending[op.Sock] = map[string]bool{}
+			}
+			for _, r := range op.Rooms {
+				pending[op.Sock][r] = true
+			}
+		case "leaveall1":
+			if _, ok := model[op.Sock]; !ok {
+				continue
+			}
+			pm, _ = catchPanic(func() {
+				for _, r := range keys(model[op.Sock]) {
+					socks[op.Sock].Leave(adapter.Room(r))
+				}
+			})
+			model[op.Sock] = map[string]bool{}
 		case "join":
 			if _, ok := model[op.Sock]; !ok {
 				continue
@@ -636,9 +677,14 @@ func genC04Hist(t *rapid.T) c04HistCase {
 		c.Ops = append(c.Ops, c04Op{Op: "connect", Sock: s})
 	}
 	n := rapid.IntRange(3, 30).Draw(t, "ops")
+	leftOwn, leftOwnEver := map[string]bool{}, map[string]bool{}
 	for i := 0; i < n; i++ {
 		op := c04Op{}
-		switch rapid.IntRange(0, 15).Draw(t, "op") {
+		switch rapid.IntRange(0, 17).Draw(t, "op") {
+		case 16:
+			op = c04Op{Op: "leaveall1", Sock: sock.Draw(t, "sock")} // leaves every room it is in, one Leave at a time, its own-id room included
+		case 17:
+			op = c04Op{Op: "prejoin", Sock: sock.Draw(t, "sock"), Rooms: rapid.SliceOfN(room, 1, 2).Draw(t, "rooms")} // joins rooms BEFORE it is known to the socket store (as a namespace middleware or a recovered session does)
 		case 0:
 			op = c04Op{Op: "connect", Sock: sock.Draw(t, "sock")}
 		case 1, 2, 3:
@@ -667,9 +713,24 @@ func genC04Hist(t *rapid.T) c04HistCase {
 				op.Chain = append(op.Chain, rapid.SampledFrom([]string{"to:r0", "to:r1", "to:r2", "in:r3", "except:r0", "except:r1", "except:s0", "local", "compress", "to:s1"}).Draw(t, "chainstep"))
 			}
 		}
-		if kf1 && op.Op == "leave" && len(op.Rooms) == 1 && op.Rooms[0] == op.Sock {
+		// KF-C04-1 (a broadcast THROUGH a socket that has left its own-id room reaches that socket) is excluded by construction while it is
+		// open: such a broadcast is replaced by an adapter broadcast and counted. Leaving the own-id room as such stays in the domain.
+		switch {
+		case op.Op == "leave" && len(op.Rooms) == 1 && op.Rooms[0] == op.Sock:
+			leftOwn[op.Sock] = true
+		case op.Op == "disconnect" || op.Op == "connect":
+			delete(leftOwn, op.Sock)
+		case op.Op == "disconnectsockets":
+			leftOwn = map[string]bool{} // (which sockets it hits depends on the membership; be conservative the other way round below)
+		case op.Op == "leaveall1":
+			leftOwn[op.Sock] = true
+		}
+		if kf1 && op.Op == "sockbroadcast" && leftOwnEver[op.Sock] {
 			c04Excluded++
-			op.Rooms = []string{"r0"} // excluded by construction while KF-C04-1 is open (counted)
+			op = c04Op{Op: "broadcast", T: op.T, E: op.E}
+		}
+		if leftOwn[op.Sock] {
+			leftOwnEver[op.Sock] = true
 		}
 		c.Ops = append(c.Ops, op)
 	}
